@@ -93,11 +93,43 @@ def job_structure(module, budget, shard, nshards):
     return acc
 
 
+@worker
+def job_deviations(module, base_index, k, shard, nshards):
+    """The deviation family of mc.gen (every variant of a base document in <= k slots: names, texts, tags, cells, keywords,
+    description and doc-string lines, layout) through parser + compiler."""
+    from . import gen as G
+    mod = importlib.import_module(module)
+    acc = Acc()
+    last = None
+    base = G.base_documents()[base_index]
+    for i, (m, lay) in enumerate(G.variants(base, k)):
+        if i % nshards != shard:
+            continue
+        try:
+            text, exp, r = M.render(m, M.Layout(**lay))
+        except (StopIteration, KeyError, IndexError):
+            continue
+        a = I.parse(text, default=r.L.dialect)
+        if a[0] != 'ok':
+            acc.counters['parser_route_rejected'] += 1
+            continue
+        mod.check_ast(a[1], acc, {'kind': 'ast', 'ast': a[1], 'text': text, 'route': 'parser'})
+        last = text
+    if last is not None:
+        acc.sample({'family': 'deviations of base %d' % base_index, 'text': last})
+    return acc
+
+
 def run_shapes(ctx, module, families, structure_n=(5, 6)):
     ns = 16
     mod = importlib.import_module(module)
     for fam in list(families) + ['pairs']:
         ctx.level('shapes:' + fam, [job_shapes.job(module, fam, s, ns, ctx.quick) for s in range(ns)])
+    from . import gen as G
+    nb = len(G.base_documents())
+    ctx.level('deviation documents k<=1 via parser', [job_deviations.job(module, b, 1, 0, 1) for b in range(nb)])
+    if not ctx.quick:
+        ctx.level('deviation documents k<=2 via parser', [job_deviations.job(module, b, 2, s, ns) for b in range(nb) for s in range(ns)])
     n = ctx.pick(*structure_n)
     ctx.level('structure N<=%d via parser' % n, [job_structure.job(module, n, s, 192) for s in range(192)])
 
